@@ -8,13 +8,14 @@ PROP = 'C13'
 RULE = ("all PIN lengths 4..12 x PAN lengths 13..19 x digit sweeps at every PIN position (format 0), all PIN lengths x "
         "random fills {1, 2^64-1, random, none supplied} (format 4); encrypted forms under 2-/3-key TDES and AES-128/192/256 "
         "keys, also keys with equal parts (K1=K2, K2=K3, K1=K3, K1=K2=K3); clear blocks compared with the Lean model and an independent nibble-level construction, TDES ciphertexts "
-        "with a from-scratch DES reference, AES with a direct call of `cryptography`. Non-trivial = every case (each has a "
+        "with a from-scratch DES reference, AES ciphertexts with the Lean model's AES (Model/Aes.lean) and with a direct call of `cryptography`. Non-trivial = every case (each has a "
         "distinct PIN/PAN/fill/key); distinct = distinct case")
 TRUSTED = ["Model/PinBlock.lean models Iso0PinBlock/Iso4PinBlock to_bytes/from_bytes (string formatting, int(...,16), XOR, "
            "to_bytes) — hand-written, tied by this correspondence; block ciphers are a parameter of the model",
-           "Model/Des.lean: DES / two- and three-key Triple DES (ECB) inside the Lean model (FIPS 46-3 tables, known answers as #guards; Lemmas/Des.lean proves decrypt(encrypt x) = x); every Triple DES ciphertext of the implementation is compared with the model's AND with harness/refdes.py (an independent from-scratch Python DES); AES taken from `cryptography`",
+           "Model/Des.lean: DES / two- and three-key Triple DES (ECB) inside the Lean model (FIPS 46-3 tables, known answers as #guards; Lemmas/Des.lean proves decrypt(encrypt x) = x); every Triple DES ciphertext of the implementation is compared with the model's AND with harness/refdes.py (an independent from-scratch Python DES)",
+           "Model/Aes.lean: AES-128/192/256 inside the Lean model (FIPS 197 Appendix C vectors as #guards; Lemmas/Aes.lean proves the inverse cipher undoes the cipher); every AES ciphertext of the implementation is compared with the model's",
            "freshness of the random fill is observed (call count of secrets.randbits, inequality of two blocks), not proved"]
-ASSUMPTIONS = ["D_k(E_k(x)) = x for the ECB ciphers of `cryptography` (explicit hypothesis of C13_encrypted_roundtrip)",
+ASSUMPTIONS = ["none about the ciphers: D_k(E_k(x)) = x is proved for the model's Triple DES and AES, and the model's ciphertexts are compared with `cryptography`'s on every run",
                "PIN and PAN are ASCII digit strings"]
 
 
@@ -119,7 +120,7 @@ def impl_eval(case):
             why = 'clear block is not ISO 9564 format 4'
         elif back != pin:
             why = f'decrypting returns PIN {back!r} ({st2})'
-        return {'obs': f'ok {clear.hex()} {st2} {common.dotted(back or "")}', 'violation': why,
+        return {'obs': f'ok {clear.hex()} {enc.hex()} {common.dotted(back or "")}' if st2 == 'ok' else st2, 'violation': why,
                 'tags': ['enc4', f'keylen:{len(key) // 2}']}
     if k == 'enc4tdes':
         # format 4 (a 16-byte block = two DES blocks) under the TDES mix-in: ECB of both blocks
@@ -166,6 +167,10 @@ def model_line(case):
     if case['k'] == 'enc4tdes':
         # clear block, Triple DES encryption (Model/Des.lean), decryption, PIN read back: all by the model
         return f"pin.enc4tdes\t{pin}\t{case['rnd']}\t{case['key']}"
+    if case['k'] == 'enc4':
+        # clear block, AES encryption (Model/Aes.lean — the cipher itself, checked against FIPS 197 vectors), the inverse
+        # cipher, PIN read back: all by the model
+        return f"pin.enc4aes\t{pin}\t{case['rnd']}\t{case['key']}"
     if case['k'] == 'enc0':
         return f"pin.enc0\t{pin}\t{common.dotted(case['pan'])}\t{case['key']}"
     if case['k'] in ('iso0',):
@@ -176,7 +181,7 @@ def model_line(case):
 
 
 def model_obs(case, resp):
-    if case['k'] in ('enc0', 'enc4tdes'):
+    if case['k'] in ('enc0', 'enc4tdes', 'enc4'):
         return resp
     a, b = resp
     if not a.startswith('ok ') or not b.startswith('ok '):
